@@ -1,5 +1,6 @@
-"""usage: try_benign.py <PID> [-a]  -- applies each /tmp/benign2/<PID>.out/patch_k.diff to a worktree at the current /repo HEAD and runs the
-quick checks (own property, or all with -a).  A VIOLATION here is a FALSE ALARM (the refactoring is behaviour preserving)."""
+"""usage: try_benign.py <PID> [-a | <check> ...]  -- applies each /verif/benign/<PID>-<k>/patch.diff to a throw-away worktree at the current
+/repo HEAD and runs the quick checks (own property, the listed ones, or all with -a).  A VIOLATION here is a FALSE ALARM (the refactoring is
+behaviour preserving)."""
 import glob
 import json
 import os
@@ -8,8 +9,9 @@ import sys
 
 pid = sys.argv[1]
 allc = "-a" in sys.argv
-wt = "/tmp/benign2/%s" % pid
+wt = "/tmp/benign_wt/%s" % pid
 out = wt + ".out"
+os.makedirs(out, exist_ok=True)
 
 
 def sh(c):
@@ -17,12 +19,13 @@ def sh(c):
 
 
 head = sh("git -C /repo rev-parse HEAD").stdout.strip()
-sh("git -C %s reset -q --hard; git -C %s clean -fdq; git -C %s checkout -q --detach %s" % (wt, wt, wt, head))
+sh("git -C /repo worktree remove --force %s; git -C /repo worktree prune" % wt)
+sh("git -C /repo worktree add --detach %s %s" % (wt, head))
 man = json.load(open("/verif/MANIFEST.json"))
 checks = [c["property_id"] for c in man["checks"]] if allc else ([a for a in sys.argv[2:] if a.startswith("C")] or [pid])
 res = {}
-for patch in sorted(glob.glob(out + "/patch_*.diff")):
-    k = os.path.basename(patch)[6:-5]
+for patch in sorted(glob.glob("/verif/benign/%s-*/patch.diff" % pid)):
+    k = os.path.basename(os.path.dirname(patch)).split("-")[1]
     sh("git -C %s reset -q --hard" % wt)
     a = sh("git -C %s apply --whitespace=nowarn %s" % (wt, patch))
     if a.returncode != 0:
@@ -53,5 +56,5 @@ for patch in sorted(glob.glob(out + "/patch_*.diff")):
     print("== %s %s (%s): %s" % (pid, k, files, "silent" if not alarms else "FALSE ALARM " + " | ".join(alarms)))
     res[k] = alarms
     sh("git -C %s reset -q --hard" % wt)
-sh("rm -rf %s.cache %s.evid" % (wt, wt))
-json.dump(res, open(out + "/verdicts.json", "w"), indent=1)
+sh("git -C /repo worktree remove --force %s" % wt)
+sh("rm -rf %s %s.cache %s.evid %s" % (wt, wt, wt, out))
